@@ -1,11 +1,11 @@
 (* Extraction of the executable C11 model (ExtrOcamlBasic only). *)
 From Coq Require Import ExtrOcamlBasic.
 From Coq Require Extraction.
-From LJT Require Import model.Extent model.ExtentApi model.ExtentHist model.ExtentLanes gen.GenAlign.
+From LJT Require Import model.Extent model.ExtentApi model.ExtentHist model.ExtentLanes model.Extent565 gen.GenAlign.
 Extraction Language OCaml.
 Extraction "x_c11.ml" tjscaled set_crop dec_out_w dec_out_h packed_accesses decompress_accesses packed_size
   plane_w plane_h plane_size yuv_buf_size eff_stride samp_h samp_v ncomp
   encdec_plane rawdata_plane all_planes unified_planes writes footprint model_trace
   st_row_stores ld_row_loads sse2_st3 sse2_st4 avx2_st3 avx2_st4 sse2_ld3 sse2_ld4 avx2_ld3 avx2_ld4
   sarray_row_len simd_touched dec_recheck hist_region crop_align dec_chk_left dec_chk_width dec_chk_bottom
-  h2v1_downsample_c h2v2_downsample_c h2v1_fancy_c h2v2_fancy_c h2v1_downsample_simd h2v2_downsample_simd h2v1_fancy_simd h2v2_fancy_simd.
+  h2v1_downsample_c h2v2_downsample_c h2v1_fancy_c h2v2_fancy_c h2v1_downsample_simd h2v2_downsample_simd h2v1_fancy_simd h2v2_fancy_simd rgb565_row_end.
